@@ -277,6 +277,20 @@ Fixpoint put_leaf (f : forest) (k : string) (l : leaf) : forest :=
   | FNonT k' p bs r => if String.eqb k k' then FLeaf k l None r else FNonT k' p bs (put_leaf r k l)
   | FSub k' t r => if String.eqb k k' then FLeaf k l None r else FSub k' t (put_leaf r k l)
   end.
+(* the same, binding an existing tensor object (its view flag goes with it) *)
+Fixpoint put_leaf_v (f : forest) (k : string) (l : leaf) (v : option nat) : forest :=
+  match f with
+  | FNil => FLeaf k l v FNil
+  | FLeaf k' l' v' r => if String.eqb k k' then FLeaf k l v r else FLeaf k' l' v' (put_leaf_v r k l v)
+  | FNonT k' p bs r => if String.eqb k k' then FLeaf k l v r else FNonT k' p bs (put_leaf_v r k l v)
+  | FSub k' t r => if String.eqb k k' then FLeaf k l v r else FSub k' t (put_leaf_v r k l v)
+  end.
+Fixpoint find_lv (f : forest) (k : string) : option (leaf * option nat) :=
+  match f with
+  | FNil => None
+  | FLeaf k' l v r => if String.eqb k k' then Some (l, v) else find_lv r k
+  | FNonT k' _ _ r | FSub k' _ r => if String.eqb k k' then None else find_lv r k
+  end.
 Fixpoint put_sub (f : forest) (k : string) (t : tree) : forest :=
   match f with
   | FNil => FSub k t FNil
@@ -393,6 +407,8 @@ Inductive op :=
 | OLock (path : list string)
 | OUnlock (path : list string)
 | ONames (names : list (option string))
+| OSwap (path : list string) (k1 k2 : string)   (* a, b = td[k1], td[k2]; td.set(k1, b); td.set(k2, a): the tensor objects trade places *)
+| OAlias (path : list string) (k1 k2 : string)  (* td.set(k1, td[k2]): k1 is bound to k2's tensor object *)
 | OConsolidate (tofile : bool).
 
 (* one step on the content; None = the call raised (the object is unchanged); the by-product is the storage offset an
@@ -422,6 +438,18 @@ Definition step_tree (t : tree) (o : op) : option (tree * option nat) :=
   | ONames names =>
       match t with Node m f =>
         no_w (if List.length names =? List.length (m_bs m) then Some (set_names_t names t) else None) end
+  | OSwap path k1 k2 =>
+      at_path path (fun _ t => match t with Node m f =>
+          no_w (if m_locked m then None else
+                match find_lv f k1, find_lv f k2 with
+                | Some (l1, v1), Some (l2, v2) => Some (Node m (put_leaf_v (put_leaf_v f k1 l2 v2) k2 l1 v1))
+                | _, _ => None end) end) false t
+  | OAlias path k1 k2 =>
+      at_path path (fun _ t => match t with Node m f =>
+          no_w (if m_locked m then None else
+                match find_lv f k2 with
+                | Some (l2, v2) => Some (Node m (put_leaf_v f k1 l2 v2))
+                | None => None end) end) false t
   | OConsolidate _ => Some (t, None)
   end.
 
